@@ -20,8 +20,50 @@ pub fn exec(func: &str, a: &mut Args) -> String {
                 Err(e) => format!("err {:?}", e).replace(' ', "_").replacen("err_", "err ", 1),
                 Ok((v, t)) => format!("{} {} {} {}", v.len(), v.iter().map(d3::fp).collect::<Vec<_>>().join(" "), t.len(),
                     t.iter().map(|t| format!("{} {} {}", t[0], t[1], t[2])).collect::<Vec<_>>().join(" ")) } }
+        // hull of P and of 2^k * P (exact scaling): the property is scale free, the two runs must describe the same polytope
+        "hull3_scale" => { let k = a.i(); let n = a.u(); let pts: Vec<_> = (0..n).map(|_| d3::p(a)).collect();
+            let s = (2.0f64).powi(k as i32);
+            let scaled: Vec<_> = pts.iter().map(|p| d3::Point::from(p.coords * s)).collect();
+            let one = |pts: &[d3::Point<f64>]| match try_convex_hull(pts) {
+                Err(e) => format!("err {:?}", e).replace(' ', "_").replacen("err_", "err ", 1),
+                Ok((v, t)) => format!("{} {} {} {}", v.len(), v.iter().map(d3::fp).collect::<Vec<_>>().join(" "), t.len(),
+                    t.iter().map(|t| format!("{} {} {}", t[0], t[1], t[2])).collect::<Vec<_>>().join(" ")) };
+            format!("{} ; {}", one(&pts), one(&scaled)) }
+        // ConvexPolyhedron::from_convex_hull: every adjacency table + feature_normal of every feature
+        "polyhedron" => { let n = a.u(); let pts: Vec<_> = (0..n).map(|_| d3::p(a)).collect();
+            // the hull mesh the polyhedron is built from is an observed internal input of the model (`<mesh> ;; <output>`)
+            let mesh = match try_convex_hull(&pts) { Err(_) => None, Ok((v, t)) => Some(format!("{} {} {} {}", v.len(), v.iter().map(d3::hp).collect::<Vec<_>>().join(" "), t.len(),
+                    t.iter().map(|t| format!("{} {} {}", t[0], t[1], t[2])).collect::<Vec<_>>().join(" "))) };
+            let out = match crate::p3::shape::ConvexPolyhedron::from_convex_hull(&pts) { None => "none".into(), Some(p) => dump_poly(&p) };
+            match mesh { Some(m) => format!("{} ;; {}", m, out), None => out } }
+        // ConvexPolyhedron::from_convex_mesh on an explicit triangle mesh
+        "polymesh" => { let n = a.u(); let pts: Vec<_> = (0..n).map(|_| d3::p(a)).collect();
+            let m = a.u(); let tris: Vec<[u32; 3]> = (0..m).map(|_| [a.u() as u32, a.u() as u32, a.u() as u32]).collect();
+            match crate::p3::shape::ConvexPolyhedron::from_convex_mesh(pts, &tris) { None => "none".into(), Some(p) => dump_poly(&p) } }
         _ => "nofn".into(),
     }
+}
+
+/// `P np pts… F nf {first num nx ny nz}… E ne {v0 v1 f0 f1 dx dy dz}… V nv {first num}… VF n ids… EF n ids… FV n ids…
+///  NF nf {xyz}… NE ne {xyz}… NV nv {xyz}…`; a `feature_normal` call that panics prints `x x x`
+fn dump_poly(p: &crate::p3::shape::ConvexPolyhedron) -> String {
+    use crate::p3::shape::FeatureId;
+    use std::panic::{catch_unwind, AssertUnwindSafe};
+    let ids = |v: &[u32]| format!("{} {}", v.len(), v.iter().map(|i| i.to_string()).collect::<Vec<_>>().join(" ")).trim().to_string();
+    let fnrm = |f: FeatureId| match catch_unwind(AssertUnwindSafe(|| p.feature_normal(f))) {
+        Ok(Some(n)) => d3::fv(&n.into_inner()), Ok(None) => "n n n".to_string(), Err(_) => "x x x".to_string() };
+    let mut s = String::new();
+    s += &format!("P {} {}", p.points().len(), p.points().iter().map(d3::fp).collect::<Vec<_>>().join(" "));
+    s += &format!(" F {} {}", p.faces().len(), p.faces().iter().map(|f| format!("{} {} {}", f.first_vertex_or_edge, f.num_vertices_or_edges, d3::fv(&f.normal.into_inner()))).collect::<Vec<_>>().join(" "));
+    s += &format!(" E {} {}", p.edges().len(), p.edges().iter().map(|e| format!("{} {} {} {} {}", e.vertices[0], e.vertices[1], e.faces[0], e.faces[1], d3::fv(&e.dir.into_inner()))).collect::<Vec<_>>().join(" "));
+    s += &format!(" V {} {}", p.vertices().len(), p.vertices().iter().map(|v| format!("{} {}", v.first_adj_face_or_edge, v.num_adj_faces_or_edge)).collect::<Vec<_>>().join(" "));
+    s += &format!(" VF {}", ids(p.vertices_adj_to_face()));
+    s += &format!(" EF {}", ids(p.edges_adj_to_face()));
+    s += &format!(" FV {}", ids(p.faces_adj_to_vertex()));
+    s += &format!(" NF {} {}", p.faces().len(), (0..p.faces().len()).map(|i| fnrm(FeatureId::Face(i as u32))).collect::<Vec<_>>().join(" "));
+    s += &format!(" NE {} {}", p.edges().len(), (0..p.edges().len()).map(|i| fnrm(FeatureId::Edge(i as u32))).collect::<Vec<_>>().join(" "));
+    s += &format!(" NV {} {}", p.vertices().len(), (0..p.vertices().len()).map(|i| fnrm(FeatureId::Vertex(i as u32))).collect::<Vec<_>>().join(" "));
+    s.split_whitespace().collect::<Vec<_>>().join(" ")
 }
 
 fn cloud2(r: &mut Rng, kind: u64, n: usize) -> Vec<d2::Point<f64>> {
@@ -69,6 +111,151 @@ fn solid3(r: &mut Rng) -> Vec<d3::Point<f64>> {
     pts
 }
 
+
+// ---------------------------------------------------------------------------------------------------------------
+// follow-up families: hulls with merged coplanar faces, clouds of every scale / far from the origin, explicit meshes
+
+type P3 = d3::Point<f64>;
+fn fmt3(pts: &[P3]) -> String { format!("{} {}", pts.len(), pts.iter().map(d3::hp).collect::<Vec<_>>().join(" ")) }
+fn shuffle<T>(r: &mut Rng, v: &mut Vec<T>) { for i in (1..v.len()).rev() { let j = r.below(i as u64 + 1) as usize; v.swap(i, j); } }
+
+/// unit-scale solids whose hull has polygonal (merged) faces: boxes, lattice blocks, prisms, frusta; plus simplicial controls
+fn merged_solid(r: &mut Rng) -> Vec<P3> {
+    let kind = r.below(9);
+    let mut pts: Vec<P3> = Vec::new();
+    match kind {
+        0 | 1 => { // box corners (kind 1: + points inside faces, on edges, inside the box; all dyadic)
+            let he = [*r.pick(&[0.5, 1.0, 1.5, 2.0, 0.25]), *r.pick(&[0.5, 1.0, 1.5, 2.0, 3.0]), *r.pick(&[0.5, 1.0, 0.75, 2.0])];
+            for sx in [-1.0, 1.0] { for sy in [-1.0, 1.0] { for sz in [-1.0, 1.0] { pts.push(P3::new(sx * he[0], sy * he[1], sz * he[2])); } } }
+            if kind == 1 { for _ in 0..(1 + r.below(12)) {
+                let mut c = [0.0; 3];
+                for (i, ci) in c.iter_mut().enumerate() { *ci = he[i] * *r.pick(&[-1.0, -0.5, 0.0, 0.25, 0.5, 1.0]); }
+                pts.push(P3::new(c[0], c[1], c[2])); } } }
+        2 | 3 => { // lattice block {0..a}x{0..b}x{0..c}: full, or a random subset that keeps the 8 corners
+            let (a, b, c) = (1 + r.below(3) as i64, 1 + r.below(3) as i64, 1 + r.below(4) as i64);
+            let h = *r.pick(&[1.0, 0.5, 0.25, 2.0]);
+            for i in 0..=a { for j in 0..=b { for k in 0..=c {
+                let corner = (i == 0 || i == a) && (j == 0 || j == b) && (k == 0 || k == c);
+                if kind == 2 || corner || r.below(3) != 0 { pts.push(P3::new(i as f64 * h, j as f64 * h, k as f64 * h)); } } } } }
+        4 | 5 => { // prism (r2 == r1) or frustum over a regular k-gon, optionally with the cap centres (coplanar interior points)
+            let k = 3 + r.below(10) as usize; let h = *r.pick(&[0.25, 0.5, 1.0, 2.5]);
+            let r1 = *r.pick(&[1.0, 2.0, 0.5]); let r2 = if kind == 4 { r1 } else { r1 * *r.pick(&[0.5, 0.25, 0.75]) };
+            for (y, rad) in [(0.0, r1), (h, r2)] { for i in 0..k { let a = 2.0 * std::f64::consts::PI * i as f64 / k as f64;
+                pts.push(P3::new(rad * a.cos(), y, rad * a.sin())); } }
+            if r.bool() { pts.push(P3::new(0.0, 0.0, 0.0)); pts.push(P3::new(0.0, h, 0.0)); } }
+        6 => { // wedge / house: box + ridge (mixed quads and triangles), dyadic
+            for sx in [-1.0, 1.0] { for sz in [-1.0, 1.0] { pts.push(P3::new(sx, 0.0, sz)); pts.push(P3::new(sx, 1.0, sz)); } }
+            pts.push(P3::new(-0.5, 1.75, 0.0)); pts.push(P3::new(0.5, 1.75, 0.0)); }
+        7 => { // simplicial controls: octahedron, tetrahedron, bipyramid over a triangle
+            match r.below(3) {
+                0 => { for s in [-1.0, 1.0] { pts.push(P3::new(s, 0.0, 0.0)); pts.push(P3::new(0.0, 1.5 * s, 0.0)); pts.push(P3::new(0.0, 0.0, 2.0 * s)); } }
+                1 => { pts.extend([P3::new(0.0, 0.0, 0.0), P3::new(1.0, 0.0, 0.0), P3::new(0.0, 1.0, 0.0), P3::new(0.0, 0.0, 1.0)]); }
+                _ => { pts.extend([P3::new(1.0, 0.0, 0.0), P3::new(-0.5, 0.0, 0.75), P3::new(-0.5, 0.0, -0.75), P3::new(0.0, 1.0, 0.0), P3::new(0.0, -2.0, 0.0)]); } } }
+        _ => { let n = 4 + r.below(40) as usize; for _ in 0..n { pts.push(d3::gen_p(r, false, 1.0)); } }   // generic random cloud
+    }
+    if r.below(3) == 0 { for _ in 0..(1 + r.below(3)) { let c = pts[r.below(pts.len() as u64) as usize]; pts.push(c); } }   // duplicates
+    shuffle(r, &mut pts);
+    pts
+}
+
+/// similarity `p -> s * (R p) + t`. `exact`: s = 2^k, R in the cube group, t a dyadic multiple of s (no rounding for dyadic
+/// inputs); otherwise s log-uniform in [1e-6, 1e6], R random, |t| up to 1e5 cloud sizes.  Returns the points and log2(s) if exact.
+fn similarity(r: &mut Rng, pts: &[P3], exact: bool) -> Vec<P3> {
+    let diag = { let mut lo = pts[0].coords; let mut hi = lo; for p in pts { lo = lo.inf(&p.coords); hi = hi.sup(&p.coords); } (hi - lo).norm().max(1e-300) };
+    if exact {
+        let s = (2.0f64).powi(r.range(-20, 20) as i32);
+        let q = loop { let q = d3::gen_quat(r, true); if q.iter().all(|c| *c == 0.0 || c.abs() == 0.5 || c.abs() == 1.0) { break q; } };
+        let rot = d3::na::Unit::new_unchecked(d3::na::Quaternion::new(q[3], q[0], q[1], q[2]));
+        let tm = *r.pick(&[0.0, 0.0, 1.0, 16.0, 1024.0, 65536.0]);
+        let t = d3::Vector::new(r.range(-4, 4) as f64 * tm * s, r.range(-4, 4) as f64 * tm * s, r.range(-4, 4) as f64 * tm * s);
+        pts.iter().map(|p| P3::from((rot * p.coords) * s + t)).collect()
+    } else {
+        let s = match r.below(4) { 0 => 1.0, 1 => r.logu(1e-6, 1e-3), 2 => r.logu(1e3, 1e6), _ => r.logu(1e-6, 1e6) };
+        let lt = r.bool(); let q = d3::gen_quat(r, lt);
+        let rot = d3::na::Unit::new_unchecked(d3::na::Quaternion::new(q[3], q[0], q[1], q[2]));
+        let ratio = *r.pick(&[0.0, 0.0, 1.0, 30.0, 1.0e3, 1.0e5]);
+        let dir = d3::gen_v(r, false, 1.0);
+        let t = dir * (ratio * diag * s);
+        pts.iter().map(|p| P3::from((rot * p.coords) * s + t)).collect()
+    }
+}
+
+/// triangulated surface of the lattice box {0..a}x{0..b}x{0..c} (every unit cell of every face split by a random diagonal):
+/// vertices inside faces and on edges, triangles with no contour edge. Returns integer vertices and CCW-outward triangles.
+fn grid_box_mesh(r: &mut Rng, a: i64, b: i64, c: i64) -> (Vec<[i64; 3]>, Vec<[u32; 3]>) {
+    let mut verts: Vec<[i64; 3]> = Vec::new();
+    let mut tris = Vec::new();
+    let mut id = |v: [i64; 3], verts: &mut Vec<[i64; 3]>| -> u32 { match verts.iter().position(|w| *w == v) { Some(i) => i as u32, None => { verts.push(v); (verts.len() - 1) as u32 } } };
+    // (origin, u, v, nu, nv) with u x v = outward normal
+    let faces: [([i64; 3], [i64; 3], [i64; 3], i64, i64); 6] = [
+        ([a, 0, 0], [0, 1, 0], [0, 0, 1], b, c), ([0, 0, 0], [0, 0, 1], [0, 1, 0], c, b),
+        ([0, b, 0], [0, 0, 1], [1, 0, 0], c, a), ([0, 0, 0], [1, 0, 0], [0, 0, 1], a, c),
+        ([0, 0, c], [1, 0, 0], [0, 1, 0], a, b), ([0, 0, 0], [0, 1, 0], [1, 0, 0], b, a)];
+    for (o, u, v, nu, nv) in faces {
+        for s in 0..nu { for t in 0..nv {
+            let at = |s: i64, t: i64| [o[0] + s * u[0] + t * v[0], o[1] + s * u[1] + t * v[1], o[2] + s * u[2] + t * v[2]];
+            let p00 = id(at(s, t), &mut verts); let p10 = id(at(s + 1, t), &mut verts);
+            let p11 = id(at(s + 1, t + 1), &mut verts); let p01 = id(at(s, t + 1), &mut verts);
+            if r.bool() { tris.push([p00, p10, p11]); tris.push([p00, p11, p01]); } else { tris.push([p00, p10, p01]); tris.push([p10, p11, p01]); }
+        } }
+    }
+    (verts, tris)
+}
+
+/// explicit closed convex meshes (and a few invalid ones) for `ConvexPolyhedron::from_convex_mesh`
+fn explicit_mesh(r: &mut Rng) -> (Vec<P3>, Vec<[u32; 3]>) {
+    let kind = r.below(8);
+    let (mut pts, mut tris): (Vec<P3>, Vec<[u32; 3]>) = match kind {
+        0 | 1 | 2 => { // lattice box, faces split in unit cells (kind 0: a plain box, 12 triangles)
+            let (a, b, c) = if kind == 0 { (1, 1, 1) } else { (1 + r.below(3) as i64, 1 + r.below(2) as i64, 1 + r.below(3) as i64) };
+            let h = [*r.pick(&[1.0, 0.5, 2.0, 0.75]), *r.pick(&[1.0, 0.5, 2.0, 1.5]), *r.pick(&[1.0, 0.25, 3.0])];
+            let (v, t) = grid_box_mesh(r, a, b, c);
+            (v.iter().map(|v| P3::new(v[0] as f64 * h[0], v[1] as f64 * h[1], v[2] as f64 * h[2])).collect(), t) }
+        3 | 4 => { // prism / frustum over a regular k-gon: caps fan-triangulated from a random corner, side quads split by a random diagonal
+            let k = 3 + r.below(9) as usize; let h = *r.pick(&[0.25, 0.5, 1.0, 2.5]);
+            let r1 = *r.pick(&[1.0, 2.0, 0.5]); let r2 = if kind == 3 { r1 } else { r1 * 0.5 };
+            let mut pts = Vec::new();
+            // CCW seen from +y means decreasing angle in the (x, z) parametrisation used here: x = cos, z = sin  (y = z' x x')
+            for (y, rad) in [(0.0, r1), (h, r2)] { for i in 0..k { let a = 2.0 * std::f64::consts::PI * i as f64 / k as f64; pts.push(P3::new(rad * a.cos(), y, rad * a.sin())); } }
+            let mut tris = Vec::new();
+            let (f0, f1) = (r.below(k as u64) as usize, r.below(k as u64) as usize);
+            for i in 1..k - 1 { // bottom cap (outward -y): increasing angle is CCW seen from -y
+                tris.push([(f0 % k) as u32, ((f0 + i) % k) as u32, ((f0 + i + 1) % k) as u32]);
+                tris.push([(k + f1 % k) as u32, (k + (f1 + i + 1) % k) as u32, (k + (f1 + i) % k) as u32]); }
+            for i in 0..k { let j = (i + 1) % k; let (b0, b1, t0, t1) = (i as u32, j as u32, (k + i) as u32, (k + j) as u32);
+                if r.bool() { tris.push([b0, t0, t1]); tris.push([b0, t1, b1]); } else { tris.push([b0, t0, b1]); tris.push([t0, t1, b1]); } }
+            (pts, tris) }
+        5 => { // octahedron (simplicial)
+            let pts = vec![P3::new(1.0, 0.0, 0.0), P3::new(-1.0, 0.0, 0.0), P3::new(0.0, 1.5, 0.0), P3::new(0.0, -1.5, 0.0), P3::new(0.0, 0.0, 2.0), P3::new(0.0, 0.0, -2.0)];
+            (pts, vec![[0, 2, 4], [2, 1, 4], [1, 3, 4], [3, 0, 4], [2, 0, 5], [1, 2, 5], [3, 1, 5], [0, 3, 5]]) }
+        6 => { // pyramid over a k-gon base (base merged, sides simplicial)
+            let k = 3 + r.below(8) as usize; let mut pts = Vec::new();
+            for i in 0..k { let a = 2.0 * std::f64::consts::PI * i as f64 / k as f64; pts.push(P3::new(a.cos(), 0.0, a.sin())); }
+            pts.push(P3::new(0.0, *r.pick(&[0.5, 1.0, 3.0]), 0.0));
+            let mut tris = Vec::new(); let f0 = r.below(k as u64) as usize;
+            for i in 1..k - 1 { tris.push([(f0 % k) as u32, ((f0 + i) % k) as u32, ((f0 + i + 1) % k) as u32]); }
+            for i in 0..k { tris.push([i as u32, k as u32, ((i + 1) % k) as u32]); }
+            (pts, tris) }
+        _ => { // tetrahedron
+            (vec![P3::new(0.0, 0.0, 0.0), P3::new(1.0, 0.0, 0.0), P3::new(0.0, 1.0, 0.0), P3::new(0.0, 0.0, 1.0)], vec![[0, 2, 1], [0, 1, 3], [1, 2, 3], [2, 0, 3]]) }
+    };
+    // random relabelling of the vertices, rotation of each index triple, order of the triangles
+    let n = pts.len(); let mut perm: Vec<usize> = (0..n).collect(); shuffle(r, &mut perm);
+    let mut np = pts.clone(); for (i, p) in pts.iter().enumerate() { np[perm[i]] = *p; } pts = np;
+    for t in tris.iter_mut() { let k = r.below(3) as usize; let o = [perm[t[0] as usize] as u32, perm[t[1] as usize] as u32, perm[t[2] as usize] as u32]; *t = [o[k], o[(k + 1) % 3], o[(k + 2) % 3]]; }
+    shuffle(r, &mut tris);
+    // invalid inputs the function documents as `None`: open mesh, t-junction (a triangle listed twice), repeated index
+    match r.below(16) {
+        0 => { tris.pop(); }
+        1 => { let t = tris[0]; tris.push(t); }
+        2 => { let i = r.below(tris.len() as u64) as usize; tris[i][1] = tris[i][0]; }
+        _ => {}
+    }
+    let exact = r.bool();
+    let pts = similarity(r, &pts, exact);
+    (pts, tris)
+}
+
 pub fn gen(r: &mut Rng, thorough: bool) -> Vec<(String, String)> {
     let n = if thorough { 900 } else { 300 };
     let mut v = Vec::new();
@@ -91,5 +278,26 @@ pub fn gen(r: &mut Rng, thorough: bool) -> Vec<(String, String)> {
     // degenerate corners
     v.push(("hull2".into(), format!("1 {}", d2::hp(&d2::Point::new(1.0, 2.0)))));
     v.push(("hull2".into(), format!("3 {0} {0} {0}", d2::hp(&d2::Point::new(1.0, 2.0)))));
+    // follow-up families (appended so that the stream above is unchanged)
+    let m = if thorough { 450 } else { 150 };
+    for it in 0..m {
+        // (a) any cloud family at any scale 1e-6..1e6, rotated, far from the origin: certificate oracle
+        let base = match r.below(3) { 0 => solid3(r), 1 => merged_solid(r), _ => { let k3 = r.below(6); let np3 = 4 + r.below(60) as usize; cloud3(r, k3, np3) } };
+        let exact = r.bool();
+        let cloud = similarity(r, &base, exact);
+        v.push(("hull3".into(), fmt3(&cloud)));
+        // (b) exact power-of-two rescaling of the same cloud must give the same polytope
+        if it % 2 == 0 { let k = if r.bool() { r.range(-40, -10) } else { r.range(10, 40) }; v.push(("hull3_scale".into(), format!("{} {}", k, fmt3(&cloud)))); }
+        // (c) ConvexPolyhedron tables on hulls with merged faces (the same cloud also goes through `hull3`)
+        let solid = merged_solid(r);
+        let exact = r.below(3) != 0;
+        let solid = similarity(r, &solid, exact);
+        v.push(("hull3".into(), fmt3(&solid)));
+        v.push(("polyhedron".into(), fmt3(&solid)));
+        if it % 3 == 0 { v.push(("polyhedron".into(), fmt3(&cloud))); }
+        // (d) from_convex_mesh on explicit meshes
+        let (mp, mt) = explicit_mesh(r);
+        v.push(("polymesh".into(), format!("{} {} {}", fmt3(&mp), mt.len(), mt.iter().map(|t| format!("{} {} {}", t[0], t[1], t[2])).collect::<Vec<_>>().join(" "))));
+    }
     v
 }
